@@ -178,6 +178,30 @@ fn exec_op<K: HKey>(cas: &Cas<K>, stats: Option<&OrphanStats<K>>, u: &Universe<K
                 }
                 Ok(ok("ok".into(), 0))
             }
+            "putfail" => {
+                // fault x concurrency: a commit whose rename into cas/ fails AFTER its intent was registered. The staging file of
+                // this transaction (the one that appears in staging/ during cas.put - no other worker runs meanwhile) is removed
+                // before finish(); finish() must report an error and revert exactly its own intent.
+                let content = u.content(op["c"].as_str().unwrap());
+                let sd = cas.root_path().join("staging");
+                let list = |d: &Path| -> std::collections::HashSet<std::path::PathBuf> {
+                    std::fs::read_dir(d).into_iter().flatten().flatten().map(|e| e.path()).collect()
+                };
+                let before = list(&sd);
+                let mut tx = cas.put(key())?;
+                tx.write(content).map_err(|e| LibError::Io {
+                    operation: cassadilia::LibIoOperation::WriteStagingFile,
+                    path: None,
+                    source: std::io::Error::other(e.to_string()),
+                })?;
+                for p in list(&sd).difference(&before) {
+                    let _ = std::fs::remove_file(p);
+                }
+                Ok(match tx.finish() {
+                    Err(_) => ok("failed".into(), 0),
+                    Ok(()) => ok("ok".into(), 0),
+                })
+            }
             "get" => Ok(match cas.get(&key())? {
                 Some(b) => ok(u.name_of_bytes(&b), b.len() as i64),
                 None => ok("-".into(), 0),
